@@ -203,6 +203,7 @@ func sameState(o Obs, or *oracle) bool {
 }
 
 var caseSeq int
+var slowOps int
 
 func newWorld(node gen.Node, specs []AppSpec) *world {
 	caseSeq++
@@ -277,7 +278,12 @@ func runCase(node gen.Node, c Case) []Obs {
 	for _, op := range c.Ops {
 		ret := w.do(op)
 		or.apply(op)
-		deadline := time.Now().Add(1500 * time.Millisecond)
+		// once many operations did not reach the predicted state (a broken tree) stop waiting long
+		wait := 1500 * time.Millisecond
+		if slowOps > 12 {
+			wait = 60 * time.Millisecond
+		}
+		deadline := time.Now().Add(wait)
 		var o Obs
 		for {
 			o = w.observe(ret)
@@ -286,6 +292,7 @@ func runCase(node gen.Node, c Case) []Obs {
 			}
 			if time.Now().After(deadline) {
 				o.Slow = true
+				slowOps++
 				break
 			}
 			sleepShort()
